@@ -127,7 +127,13 @@ def model_check_engine(maxtx, scheds, timeout=3000):
     return res, runs
 
 
-def prove_pairing(timeout=900):
+def prove_balances(timeout=900):
+    """Apalache on spec/Ind_Balances.tla: the account ledger over unbounded amounts (balances equal flows, balances reconcile with the lots);
+    the control is the transfer whose credit overwrites the debit on a same-account transfer"""
+    return prove_pairing(timeout, module="Ind_Balances", what={"amounts": "unbounded integers", "accounts": 3})
+
+
+def prove_pairing(timeout=900, module="Ind_Pairing", what=None):
     """Apalache on spec/Ind_Pairing.tla: the pairing loop's two running amounts over UNBOUNDED integers.  Four obligations: Init => IndInv,
     IndInv and Next => IndInv', IndInv => Safety (what C02 says about the loop), and the sensitivity control (the loop whose third branch does
     not reduce the event must break IndInv).  Returns the outcomes; a failed obligation is a machinery failure (the specification is wrong)."""
@@ -136,7 +142,7 @@ def prove_pairing(timeout=900):
     from concurrent.futures import ThreadPoolExecutor
     exe = shutil.which("apalache-mc")
     if exe is None:
-        return {"module": "Ind_Pairing", "skipped": "apalache-mc is not on PATH"}
+        return {"module": module, "skipped": "apalache-mc is not on PATH"}
     obligations = [("init_implies_inv", ["--init=Init", "--next=Next", "--inv=IndInv", "--length=0"], True),
                    ("inv_is_inductive", ["--init=IndInit", "--next=Next", "--inv=IndInv", "--length=1"], True),
                    ("inv_implies_safety", ["--init=IndInit", "--next=Next", "--inv=Safety", "--length=0"], True),
@@ -144,27 +150,27 @@ def prove_pairing(timeout=900):
 
     def one(ob):
         name, args, want_ok = ob
-        out_dir = os.path.join(common.scratch(), f"apa_{os.getpid()}_{name}")
+        out_dir = os.path.join(common.scratch(), f"apa_{os.getpid()}_{module}_{name}")
         try:
-            p = subprocess.run([exe, "check"] + args + [f"--out-dir={out_dir}", os.path.join(common.SPEC, "Ind_Pairing.tla")],
+            p = subprocess.run([exe, "check"] + args + [f"--out-dir={out_dir}", os.path.join(common.SPEC, module + ".tla")],
                                cwd=common.scratch(), capture_output=True, text=True, timeout=timeout, check=False)
         except subprocess.TimeoutExpired as exc:
-            raise common.MachineryError(f"Apalache timed out on Ind_Pairing {name}") from exc
+            raise common.MachineryError(f"Apalache timed out on {module} {name}") from exc
         finally:
             subprocess.run(["rm", "-rf", out_dir], check=False)
         text = p.stdout + p.stderr
         ok = "The outcome is: NoError" in text
         bad = "The outcome is: Error" in text
         if not (ok or bad):
-            raise common.MachineryError(f"Apalache failed on Ind_Pairing {name}:\n" + text[-1500:])
+            raise common.MachineryError(f"Apalache failed on {module} {name}:\n" + text[-1500:])
         return name, ok == want_ok
 
     with ThreadPoolExecutor(4) as ex:
         res = dict(ex.map(one, obligations))
     failed = [n for n, good in res.items() if not good]
     if failed:
-        raise common.MachineryError(f"Ind_Pairing: obligations not discharged as expected: {failed}")
-    return {"module": "Ind_Pairing", "tool": "apalache-mc", "amounts": "unbounded integers", "events": 3, "lots": 3, "obligations": res}
+        raise common.MachineryError(f"{module}: obligations not discharged as expected: {failed}")
+    return dict({"module": module, "tool": "apalache-mc", "obligations": res}, **(what or {"amounts": "unbounded integers", "events": 3, "lots": 3}))
 
 
 # instants 1 and 2: noon of 30 and 31 December 2019 (UTC); instant 3: 2020-01-01T00:00:01Z, written in UTC (local year 2020, yr = 2) or at
